@@ -790,3 +790,53 @@ MA('C09', 'translation gradient at wrong point', FUNF,
 MA('C09', 'L2NormSquared gradient factor', DEFF, 'L2NormSquared.gradient',
    'return ScalingOperator(self.domain, 2.0)',
    'return ScalingOperator(self.domain, 1.0)', 'L2NormSquared.gradient')
+
+# ---- C16 -------------------------------------------------------------------
+NUMF = 'odl/util/numerics.py'
+DOPF = 'odl/discr/discr_ops.py'
+MA('C16', 'periodic adjoint assigns instead of accumulating', NUMF,
+   '_apply_padding', 'lhs_arr[lhs_slc_l] += lhs_arr[rhs_slc_l]',
+   'lhs_arr[lhs_slc_l] = lhs_arr[rhs_slc_l]', 'resize_array', nth=0)
+MA('C16', 'symmetric inner slice repeats the edge', NUMF,
+   '_padding_slices_inner', 'pad_slc_r = slice(istop_inner - 2, istop_r, -1)',
+   'pad_slc_r = slice(istop_inner - 1, istop_r, -1)', 'resize_array[symmetric]')
+MA('C16', 'resize_discr half cell dropped', DOPF, '_resize_discr',
+   'new_minpt.append(grid_min[axis] - (num_l + 0.5) * cell_size[axis])',
+   'new_minpt.append(grid_min[axis] - num_l * cell_size[axis])',
+   '_resize_discr')
+MA('C16', 'order1 slope sign', NUMF, '_apply_padding',
+   'lhs_arr[lhs_slc_l] = lhs_arr[bdry_slc_l] + arange_l * slope_l',
+   'lhs_arr[lhs_slc_l] = lhs_arr[bdry_slc_l] - arange_l * slope_l',
+   'resize_array[order1]')
+MA('C16', 'intersection offset on the wrong side', NUMF,
+   '_intersection_slice_tuples', 'if n_lhs > n_rhs:...',
+   'if n_lhs > n_rhs:\n    lhs_slc.append(slice(None, min(n_lhs, n_rhs)))\n    rhs_slc.append(slice(None))\n'
+   'elif n_lhs < n_rhs:\n    lhs_slc.append(slice(None))\n    rhs_slc.append(inner_slc)\n'
+   'else:\n    lhs_slc.append(slice(None))\n    rhs_slc.append(slice(None))',
+   'resize_array')
+MA('C16', 'adjoint operator uses forward direction', DOPF,
+   'ResizingOperator.adjoint.ResizingOperatorAdjoint._call',
+   'resize_array(...', "resize_array(x.asarray(), op.domain.shape, offset=op.offset, pad_mode=op.pad_mode, pad_const=0, direction='forward', out=out_arr)",
+   'ResizingOperatorAdjoint._call')
+MA('C16', 'periodic left pad from the wrong end', NUMF,
+   '_padding_slices_inner',
+   'pad_slc_l = slice(istop_inner - n_pad_l, istop_inner)',
+   'pad_slc_l = slice(istart_inner, istart_inner + n_pad_l)',
+   'resize_array[periodic]')
+MA('C16', 'order0 adjoint forgets sum', NUMF, '_apply_padding',
+   'lhs_arr[lhs_slc_r] += np.sum(lhs_arr[rhs_slc_r], axis=axis, keepdims=True, dtype=lhs_arr.dtype)',
+   'pass', 'resize_array[order0]', nth=0)
+MA('C16', 'order1 adjoint moment sign', NUMF, '_apply_padding',
+   'sign = np.array([-1, 1])[bcast_slc]', 'sign = np.array([1, -1])[bcast_slc]',
+   'resize_array[order1]')
+MA('C16', 'adjoint inverse keyword regression', DOPF,
+   'ResizingOperator.adjoint.ResizingOperatorAdjoint.inverse',
+   'return op.inverse.adjoint',
+   'return ResizingOperatorAdjoint(domain=self.range, range=self.domain, pad_mode=op.pad_mode)',
+   'ResizingOperatorAdjoint')
+MA('C16', 'inverse drops pad_mode', DOPF, 'ResizingOperator.inverse',
+   'return ResizingOperator(...',
+   'return ResizingOperator(self.range, self.domain, pad_const=self.pad_const)',
+   'ResizingOperator.inverse')
+MA('C16', 'resize_discr right count', DOPF, '_resize_discr',
+   'num_r = n_diff - off', 'num_r = n_diff', '_resize_discr')
